@@ -6,6 +6,7 @@ package snap
 import (
 	"fmt"
 	"reflect"
+	"runtime"
 	"sort"
 	"strconv"
 	"strings"
@@ -237,5 +238,25 @@ func (d *dumper) val(v reflect.Value, depth int) {
 		d.b.WriteString("uptr")
 	default:
 		fmt.Fprintf(d.b, "<%s>", v.Kind())
+	}
+}
+
+// PanicSite must be called from a deferred function while a panic is being
+// recovered: it returns the innermost function of github.com/ohler55/ojg on
+// the panicking stack (function name only, so that line shifts do not change
+// it), or "?" when none is found.
+func PanicSite() string {
+	pcs := make([]uintptr, 64)
+	n := runtime.Callers(2, pcs)
+	frames := runtime.CallersFrames(pcs[:n])
+	for {
+		f, more := frames.Next()
+		if strings.Contains(f.Function, "github.com/ohler55/ojg") {
+			fn := f.Function[strings.LastIndex(f.Function, "/")+1:]
+			return fn
+		}
+		if !more {
+			return "?"
+		}
 	}
 }
